@@ -9,7 +9,8 @@ Impl model of pkg/yang/types.go (typeDictionary add / find / findInModule / find
 resolveTypedefs, Typedef.resolve, Type.resolve with all overlays), of YangType.Equal
 (pkg/yang/yangtype.go) and of Entry.DefaultValues (pkg/yang/entry.go), as the code is after the
 repairs 67910ae (D7), f17b6ec (D30), 8d5874a (D4), dfaa219 (D19), 15ed7d1 (D18, D36), eab0e8c (D42),
-af35f9a (D43).
+af35f9a (D43), and the coordinator's 673b372 (a union keeps one copy of each member error; that a failed
+resolution is memoised has no counterpart here: nothing is memoised, see below).
 
 How the Go state is rendered
 * The AST is not modelled: the functions work on statement trees of modules the AST builder has
@@ -415,9 +416,32 @@ def stepPosix (env : Env) (pps : List Stmt) (s : St) : St :=
   ({ s.1 with posixPattern := appendNew s.1.posixPattern (pps.map Stmt.arg) },
    s.2 ++ (pps.filter fun e => !env.posixOk e.arg).map fun e => Err.at_ e "bad-pattern")
 
-/-- the `looking:` loop over the resolved member types -/
+/-- Append the errors that are not yet in the list (repair 673b372: "keep one of each"). -/
+def appendNewErrs (have_ : List Err) : List Err → List Err
+  | [] => have_
+  | e :: rest =>
+    if have_.any (fun o => decide (o = e)) then appendNewErrs have_ rest else appendNewErrs (have_ ++ [e]) rest
+
+/-- the `looking:` loop over the resolved member types.
+
+Since 673b372 the loop appends a member's error only when the same error *value* (Go: the same
+`error` pointer, `o == err`) is not in `errs` yet.  Go meets the same pointer twice exactly when two
+members hand back the memoised errors of one and the same failed type statement (both are derived
+from the same typedef).  The model has no pointers and compares `(file, line, col, class)`.  Same
+pointer implies same fields; the converse holds for every error that carries the position of the
+statement that raised it (the type statement itself, its range / length / enum / bit / extension
+substatement): one statement raises one error of a class.  It can fail for errors without a
+position of their own — "invalid boolean" of require-instance and the typedef identity-base error
+(no position), identity-base errors (positioned at the module statement), and reports of a cycle
+(made anew at every re-entry): two *different* members failing that way give two equal records, of
+which Go keeps both and the model one.  The difference is confined to how often such a record is
+repeated: removing repeated records (keeping first occurrences) from Go's list and from the
+model's gives the same list, because that operation commutes with both ways of appending
+(`dedup (a ++ b)` depends only on `dedup a` and `dedup b`).  The correspondence run compares
+error lists in that form; the property (an unknown, unresolvable or cyclic reference is an error)
+does not speak about multiplicity. -/
 def stepMembers (members : List Res) (s : St) : St :=
-  ({ s.1 with members := addMembers s.1.members members }, s.2 ++ members.flatMap (·.errs))
+  ({ s.1 with members := addMembers s.1.members members }, appendNewErrs s.2 (members.flatMap (·.errs)))
 
 /-- `if !y.Equal(y.Root) { y.Root = &y }` -/
 def fixRoot (y : YType) : YType := if !y.equalsRoot then { y with root := none } else y
